@@ -327,7 +327,10 @@ pub fn run_c18(tier: &str, seed: u64, replay: Option<&str>) -> (Meta, Report) {
         extra: vec![],
     };
     if let Some(r) = replay {
-        let (_, fam, idx, sd) = parse_case(r);
+        let (p, fam, idx, sd) = parse_case(r);
+        if p != "C18" {
+            return (meta, run_single(crate::p_xfer::any_case(r).expect("case"), judge_c18_kinds));
+        }
         return (meta, run_single(c18_case(&fam, idx, sd).expect("case"), judge_c18));
     }
     let n = c18_space().len();
@@ -336,7 +339,43 @@ pub fn run_c18(tier: &str, seed: u64, replay: Option<&str>) -> (Meta, Report) {
     let nr = if thorough { 800_000 } else { 3_000 };
     rep.merge(run_cases(nr, "c18-rand", move |i| c18_case("rand", i, seed), judge_c18));
     rep.add("cases:rand", nr as u64);
+    // the direction rule alone (an unacknowledged-mode receiver emits nothing but Finished, and that only with
+    // closure) over other properties' workloads: primitives, prompts, late copies, cancels
+    let nx = if thorough { 150_000 } else { 1_500 };
+    rep.merge(run_cases(nx, "c18-x-c03primseq", move |i| crate::p_xfer::c03_case("primseq", i, seed), judge_c18_kinds));
+    rep.merge(run_cases(nx, "c18-x-c03late", move |i| crate::p_xfer::c03_case("late", i, seed), judge_c18_kinds));
+    rep.merge(run_cases(nx, "c18-x-c03prompt", move |i| crate::p_xfer::c03_case("prompt", i, seed), judge_c18_kinds));
+    rep.merge(run_cases(nx, "c18-x-c10rand", move |i| crate::p_final::c10_case("rand", i, seed), judge_c18_kinds));
+    rep.add("cases:cross(c03-primseq,c03-late,c03-prompt,c10-rand; unacknowledged runs judged)", 4 * nx as u64);
     (meta, rep)
+}
+
+/// Rule 1 of C18 alone, for executions of other workloads: in unacknowledged mode the receiving entity puts
+/// nothing on the link but Finished PDUs, and those only when closure was requested.
+pub fn judge_c18_kinds(info: &Info, log: &RunLog, rep: &mut Report) {
+    let d = Dig::new(log);
+    let t = &info.transfers[0];
+    let k = &info.knobs[0];
+    if t.mode != unack() {
+        return;
+    }
+    let id = match d.id(0) {
+        Some(i) => i,
+        None => return,
+    };
+    rep.count("c18_cross_runs_judged(unacknowledged)");
+    for e in d.emits(t.dst, id) {
+        let bad = match e.3 {
+            Kind::Finished => !k.closure,
+            _ => true,
+        };
+        if bad {
+            rep.violate("unack-receiver-emits", format!("closure={} kind={} (cross workload)", k.closure, kind_short(e.3)), &info.case, witness(log, info, &format!("receiver emitted {} in unacknowledged mode", kind_short(e.3))));
+        }
+    }
+    if d.faults_applied() > 0 {
+        rep.nontrivial(case_sig(info, log));
+    }
 }
 
 // ===================================================================================== C19
